@@ -49,8 +49,29 @@ def random_paths(edges, n, k, rnd):
     return out
 
 
+def tlaps(ctx):
+    """Re-proves spec/proofs/PartitionProof.tla (unbounded len, g) with tlapm in a scratch copy."""
+    import shutil, re
+    d = ctx.work.sub("tlaps")
+    shutil.copy(os.path.join(vlib.SPEC, "proofs", "PartitionProof.tla"), d)
+    try:
+        p = subprocess.run(["tlapm", "--threads", "8", "--cleanfp", "PartitionProof.tla"], cwd=d, stdout=subprocess.PIPE,
+                           stderr=subprocess.STDOUT, timeout=600)
+    except (subprocess.TimeoutExpired, FileNotFoundError) as e:
+        raise vlib.Inconclusive("tlapm: %s" % e)
+    out = p.stdout.decode("utf-8", "replace")
+    m = re.search(r"All (\d+) obligations proved", out)
+    if not m:
+        raise vlib.Inconclusive("tlapm did not prove PartitionProof:\n" + out[-1500:])
+    ctx.extra["tlaps"] = {"module": "spec/proofs/PartitionProof.tla", "obligations": int(m.group(1)), "discharged": int(m.group(1)),
+                          "checker_cmd": "tlapm --threads 8 --cleanfp PartitionProof.tla",
+                          "theorems": ["AtMostG", "NonEmptyAndInside", "Disjoint", "Cover", "Aligned"]}
+    vlib.log("[C12] tlapm: all %s obligations proved" % m.group(1))
+
+
 def run(ctx):
     rnd = random.Random(ctx.seed)
+    tlaps(ctx)
 
     def once():
         events_all = []
